@@ -3,14 +3,14 @@ import json, os, random
 import vlib, runscen
 from props.sched_meta import TRUSTED, CORR as CORRESPONDENCE
 
-THEOREMS = [("Properties.C16", "C16_holds")]
+THEOREMS = [("Properties.C16", "C16_holds"), ("Properties.C16", "C16_completes_holds")]
 LEVEL_NOTE = ("Coq theorem C16_holds (every plan, every group size): from the moment the scheduler reaches a group whose members are all defined and executable, scheduler steps "
               "alone - no child exit or reap in between - start every member before it begins to wait. Partial: that spawning does not block on the OS is runtime behaviour. Tied by "
               "real runs in which every member of a group of 2..48 children waits on a file-system barrier until all members have started (30 s dead-man, exit 99): the run must succeed, with and without a log listener attached.")
 RULE = ("group sizes {2,3,8,24,48} (thorough: 2..64) at the first, middle or last position of a 3-layer plan and under a second command; non-trivial = every case (the barrier makes sequential "
         "execution fail); the same with a `log tail --stdout --stderr` listener attached and drained; distinct by (size, position, commands, listener)")
 
-def case(ctx, rng, n, position, two_cmds, undefined_ahead=0, listener=False):
+def case(ctx, rng, n, position, two_cmds, undefined_ahead=0, listener=False, named=False):
     members = ["grp/m%02d" % i for i in range(n)]
     targets = []
     if position in ("middle", "last"): targets.append({"path": "base"})
@@ -39,7 +39,9 @@ def case(ctx, rng, n, position, two_cmds, undefined_ahead=0, listener=False):
             lst = logscen.start_listener(rr, ["--stdout", "--stderr"])
             threading.Thread(target=lambda: [None for _ in iter(lambda: lst.stdout.read(65536), b"")], daemon=True).start()
         try:
-            rc, out, err, raw = rr.run("-c", *cmds, timeout=120)
+            # named=True: the group requested explicitly (`-t <every member> --deps`; in first position no member has a dependency) instead of through the change set
+            extra = (["-t"] + list(members) + ["--deps"]) if named else []
+            rc, out, err, raw = rr.run("-c", *cmds, *extra, timeout=120)
         except Exception as e:
             import subprocess
             subprocess.run(["pkill", "-f", rr.repo], capture_output=True)
@@ -49,7 +51,8 @@ def case(ctx, rng, n, position, two_cmds, undefined_ahead=0, listener=False):
             try: lst.wait(timeout=10)
             except Exception: lst.kill()
         traces = rr.traces()
-        c = {"size": n, "position": position, "commands": cmds, "undefined_ahead": undefined_ahead, "listener": listener}
+        c = {"size": n, "position": position, "commands": cmds, "undefined_ahead": undefined_ahead, "listener": listener, "named": named}
+        ctx.count("requested_by_name" if named else "requested_by_changes")
         ctx.count("listener_attached" if listener else "no_listener")
         ctx.count("undefined_ahead_%d" % (undefined_ahead * len(targets)))
         ctx.count("size_%d" % n); ctx.count("pos_" + position)
@@ -78,11 +81,14 @@ def run(ctx, scale):
     # the same, behind a few hundred plan entries that start nothing
     for n in ([24, 48] if ctx.quick() else [8, 24, 48, 64]):
         case(ctx, random.Random(rng.getrandbits(32)), n, "first", False, undefined_ahead=-(-300 // n))
+    # the group requested by naming its members (with --deps), with and without dependencies among the named targets
+    for i, (n, pos) in enumerate([(6, "first"), (24, "middle")] if ctx.quick() else [(2, "first"), (6, "first"), (24, "middle"), (48, "last"), (33, "first")]):
+        case(ctx, random.Random(rng.getrandbits(32)), n, pos, False, named=True)
     # the same with a `log tail` listener attached
     for i, n in enumerate([2, 5, 24] if ctx.quick() else [2, 3, 5, 8, 24, 48]):
         case(ctx, random.Random(rng.getrandbits(32)), n, ["middle", "first", "last"][i % 3], False, listener=True)
 
 def replay(ctx, c):
     c = c.get("case", c)
-    case(ctx, random.Random(ctx.seed), c["size"], c["position"], "lint" in c.get("commands", []), c.get("undefined_ahead", 0), c.get("listener", False))
+    case(ctx, random.Random(ctx.seed), c["size"], c["position"], "lint" in c.get("commands", []), c.get("undefined_ahead", 0), c.get("listener", False), c.get("named", False))
     return {"spec_failures": [d for _, d in ctx.spec_failures][:3], "disagreements": [d for _, d in ctx.tie_breaks][:3]}
